@@ -193,7 +193,17 @@ func rulesC13(c *Ctx) {
 			tv := loop.VarFromCall(ticker, 0)
 			inspectNoLit(loop.Body, func(n ast.Node) {
 				fs, isFor := n.(*ast.ForStmt)
-				if !isFor || !g.Dominates(g.VertexOf(tcalls[0]), g.VertexOf(fs.Body.List[0])) || encloses(fs, tcalls[0]) {
+				if !isFor || len(fs.Body.List) == 0 || encloses(fs, tcalls[0]) {
+					return
+				}
+				// the ticker is created before the loop is entered
+				inLoop := -1
+				for u := 0; u < g.N && inLoop < 0; u++ {
+					if nd := g.Node(u); nd != nil && encloses(fs.Body, nd) {
+						inLoop = u
+					}
+				}
+				if !g.Dominates(g.VertexOf(tcalls[0]), inLoop) {
 					return
 				}
 				ast.Inspect(fs.Body, func(m ast.Node) bool {
